@@ -38,8 +38,11 @@ Theorem c12_call_same_as_direct :
   forall now d keys argv pc nm args r d',
   forallb utf8_valid (nm :: args) = true ->
   In (upper nm) Exec.catalogue ->
-  known now d (upper nm) args = false ->
-  exec_db now d (upper nm) (bulks (nm :: args)) None = Some (r, d') ->
+  (* the database both paths work on: after the lazy expiry that precedes every command,
+     sent directly or called from a script (bdd75e8) *)
+  let d0 := fst (expire_before now d (upper nm) (bulks (nm :: args))) in
+  known now d0 (upper nm) args = false ->
+  exec_db now d0 (upper nm) (bulks (nm :: args)) None = Some (r, d') ->
   run_script now d keys argv (single_call pc (nm :: args)) =
     (match resp_to_lua pc r with CVal v => lua_to_resp v | CErr => r_err end, d').
 Proof. exact call_same_as_direct. Qed.
@@ -158,7 +161,8 @@ Proof. vm_compute. reflexivity. Qed.
 Theorem c12_script_atomic :
   forall now s c dbi parts nm,
   upper nm = bs "EVAL" -> parts = FBulk nm :: tl parts ->
-  let r := h_eval now (get_db s dbi) parts in
+  let s1 := lazy_expire now s dbi (bs "EVAL") parts in      (* the lazy expiry every command starts with *)
+  let r := h_eval now (get_db s1 dbi) parts in
   let s' := snd (normal_command now s c dbi parts None) in
   fst (normal_command now s c dbi parts None) = fst r /\
   s_conns s' = s_conns s /\ s_password s' = s_password s /\
